@@ -87,4 +87,24 @@ def _handshake_server(rep):
     return rep["clause"] in res["failed"].get(0, [])
 
 
-REPLAYERS = {"handshake": _handshake, "handshake_server": _handshake_server, "dispatch_case": _dispatch_case, "session_ops": _session_ops, "errorclass_case": _errorclass_case, "errorclass_sets": _errorclass_sets}
+def _gate_script(rep):
+    from harness.props import versioning
+    from harness.drivers import stdio_drv
+    t = stdio_drv.run_gate_scripts([rep["script"]])
+    print(json.dumps(t))
+    res = validate.validate("BatchGateTrace", [{"kind": "gate", "ylo": 0, "ev": t[0]}], versioning.CONSTS, work=os.path.join(tlc.WORK, "replay_bg"), jobs=1)
+    print("rejected:", res["rejected"])
+    return bool(res["rejected"])
+
+
+def _version_runs(rep):
+    from harness.props import versioning
+    ylo, yhi, out = versioning._vectors((rep["ylo"], rep["yhi"]))
+    runs = out[rep["fn"]]
+    print(runs[:10])
+    res = validate.validate("BatchGateTrace", [{"kind": "runs", "ylo": ylo, "ev": runs}], versioning.CONSTS, work=os.path.join(tlc.WORK, "replay_bg"), jobs=1)
+    print("rejected:", res["rejected"])
+    return bool(res["rejected"])
+
+
+REPLAYERS = {"gate_script": _gate_script, "version_runs": _version_runs, "handshake": _handshake, "handshake_server": _handshake_server, "dispatch_case": _dispatch_case, "session_ops": _session_ops, "errorclass_case": _errorclass_case, "errorclass_sets": _errorclass_sets}
